@@ -247,9 +247,15 @@ def run(chk: common.Check):
             idstats["separation-checks"] += 1
             if coll_id(to_text(m, rng)) == i0:
                 viol.append({"why": f"collection id unchanged although {what} differs", "text": text, "other": to_text(m)})
-        idstats["separation-checks"] += 1
-        if coll_id(text, base_url="http://y/w/") == i0:
-            viol.append({"why": "collection id unchanged although the wiki URL differs", "text": text})
+        # the wiki URL: any difference in it is a different wiki (host, port, scheme, path, credentials, query, case)
+        base = "http://x/w/"
+        for other in ("http://y/w/", "http://x:8080/w/", "http://x:8081/w/", "https://x/w/", "http://x/wiki/", "http://x/w", "http://u:p@x/w/",
+                      "http://x/w/?a=1", "http://X/w/", "//x/w/"):
+            idstats["separation-checks"] += 1
+            if coll_id(text, base_url=other) == i0:
+                viol.append({"why": f"collection id unchanged although the wiki URL differs ({base!r} vs {other!r})", "text": text})
+        if coll_id(text, base_url="http://x:8080/w/") == coll_id(text, base_url="http://x:8081/w/"):
+            viol.append({"why": "collection id unchanged although the wiki URL differs (port 8080 vs 8081)", "text": text})
     chk.coverage.update({
         "evaluations": n + nid,
         "distinct_nontrivial": len(set(exps)),
